@@ -10,6 +10,7 @@ import (
 	"io"
 	"os"
 	"sync"
+	"syscall"
 	"time"
 
 	"github.com/spf13/afero"
@@ -32,8 +33,31 @@ type Event struct {
 
 // Fault describes an injected failure.
 type Fault struct {
-	At   int    // fail the At-th fallible call (1-based); 0 = none
-	Kind string // "error" | "short" (short write/read: half the bytes, nil error for writes, io.ErrUnexpectedEOF for reads) | "short_ok" (read: fewer bytes, nil error: legal for an io.Reader)
+	At int // fail the At-th fallible call (1-based); 0 = none
+	// Cause selects the error value of an "error" fault: "" = ErrInjected, or an errno the way the os package reports
+	// it (EINTR, EAGAIN, EIO, ENOSPC, EACCES: *os.PathError wrapping the syscall.Errno)
+	Cause string
+	Kind  string // "error" | "short" (short write/read: half the bytes, nil error for writes, io.ErrUnexpectedEOF for reads) | "short_ok" (read: fewer bytes, nil error: legal for an io.Reader)
+}
+
+// injected returns the error value of a fault on op/path.
+func (f *FS) injected(op, path string) error {
+	var errno syscall.Errno
+	switch f.Fault.Cause {
+	case "EINTR":
+		errno = syscall.EINTR
+	case "EAGAIN":
+		errno = syscall.EAGAIN
+	case "EIO":
+		errno = syscall.EIO
+	case "ENOSPC":
+		errno = syscall.ENOSPC
+	case "EACCES":
+		errno = syscall.EACCES
+	default:
+		return ErrInjected
+	}
+	return &os.PathError{Op: op, Path: path, Err: errno}
 }
 
 // FS wraps an afero.Fs.
@@ -88,6 +112,9 @@ func (f *FS) open(op, name string, flag int, perm os.FileMode, do func() (afero.
 	seq, fail := f.point(op, name)
 	if fail {
 		f.rec(Event{Seq: seq, Op: op, Path: name, Flags: flag, Perm: perm, Err: ErrInjected.Error()})
+		if f.Fault.Cause != "" {
+			return nil, f.injected("open", name)
+		}
 		return nil, &os.PathError{Op: "open", Path: name, Err: ErrInjected}
 	}
 	file, err := do()
@@ -136,6 +163,9 @@ func (f *FS) Stat(name string) (os.FileInfo, error) {
 	seq, fail := f.point("Fs.Stat", name)
 	if fail {
 		f.rec(Event{Seq: seq, Op: "Fs.Stat", Path: name, Err: ErrInjected.Error()})
+		if f.Fault.Cause != "" {
+			return nil, f.injected("stat", name)
+		}
 		return nil, &os.PathError{Op: "stat", Path: name, Err: ErrInjected}
 	}
 	fi, err := f.Inner.Stat(name)
@@ -169,7 +199,7 @@ func (fl *File) Close() error {
 	seq, fail := fl.fs.point("File.Close", fl.path)
 	err := fl.File.Close()
 	if fail {
-		err = ErrInjected
+		err = fl.fs.injected("close", fl.path)
 	}
 	fl.fs.rec(Event{Seq: seq, Op: "File.Close", Path: fl.path, Err: errStr(err)})
 	return err
@@ -190,7 +220,7 @@ func (fl *File) Write(p []byte) (int, error) {
 			return n, nil
 		}
 		fl.fs.rec(Event{Seq: seq, Op: "File.Write", Path: fl.path, Data: data, Err: ErrInjected.Error()})
-		return 0, ErrInjected
+		return 0, fl.fs.injected("write", fl.path)
 	}
 	n, err := fl.File.Write(p)
 	fl.fs.rec(Event{Seq: seq, Op: "File.Write", Path: fl.path, Data: data, N: n, Err: errStr(err)})
@@ -236,7 +266,7 @@ func (fl *File) Read(p []byte) (int, error) {
 			return n, io.ErrUnexpectedEOF
 		}
 		fl.fs.rec(Event{Seq: seq, Op: "File.Read", Path: fl.path, Err: ErrInjected.Error()})
-		return 0, ErrInjected
+		return 0, fl.fs.injected("read", fl.path)
 	}
 	n, err := fl.File.Read(p)
 	fl.fs.rec(Event{Seq: seq, Op: "File.Read", Path: fl.path, N: n, Err: errStr(err)})
@@ -247,7 +277,7 @@ func (fl *File) ReadAt(p []byte, off int64) (int, error) {
 	seq, fail := fl.fs.point("File.ReadAt", fl.path)
 	if fail {
 		fl.fs.rec(Event{Seq: seq, Op: "File.ReadAt", Path: fl.path, Err: ErrInjected.Error()})
-		return 0, ErrInjected
+		return 0, fl.fs.injected("read", fl.path)
 	}
 	n, err := fl.File.ReadAt(p, off)
 	fl.fs.rec(Event{Seq: seq, Op: "File.ReadAt", Path: fl.path, N: n, Err: errStr(err)})
@@ -258,7 +288,7 @@ func (fl *File) Stat() (os.FileInfo, error) {
 	seq, fail := fl.fs.point("File.Stat", fl.path)
 	if fail {
 		fl.fs.rec(Event{Seq: seq, Op: "File.Stat", Path: fl.path, Err: ErrInjected.Error()})
-		return nil, ErrInjected
+		return nil, fl.fs.injected("stat", fl.path)
 	}
 	fi, err := fl.File.Stat()
 	fl.fs.rec(Event{Seq: seq, Op: "File.Stat", Path: fl.path, Err: errStr(err)})
